@@ -165,6 +165,19 @@ def analyse(an, res_c06, res_c07):
                 # an atomic that takes part in what operations return is state like any other: outside the region it splits the step
                 for a in accs:
                     if a.part == 'A' and not a.locked and a.field not in roles.inert:
+                        live_state = a.field in (getattr(roles, 'counter', None), getattr(roles, 'part', None))
+                        # (the element counter itself made atomic is updated step by step inside the operations: reading it lock-free
+                        # shows the middle of a range operation - that stays a violation)
+                        if not live_state and m.name in ('size', 'empty', 'capacity') \
+                                and all(x.part == 'A' and x.rw == 'R' and x.field == a.field for x in accs) \
+                                and len(set(x.site for x in accs)) == 1:
+                            # an observer that consists of ONE atomic load is a single step; whether what it loads is the state at a
+                            # linearization point depends on how every mutator publishes it - not modelled (exit 2, no verdict)
+                            note = ('G-UNKNOWN %s() is one lock-free load of the atomic %s: the publication discipline of that mirror is '
+                                    'not modelled in %s reached from %s::%s' % (m.name, a.field, show_site(a.site), cm.name, mname))
+                            if note not in res_c06.incomplete:
+                                res_c06.incomplete.append(note)
+                            continue
                         res_c06.ob('L1-ONE-REGION', ok=False)
                         res_c06.violate(Violation('C06', 'L1-ONE-REGION', cm.name, mname, 'atomic %s used outside the critical section' % a.field, a.site,
                                                   '%s: results depend on this atomic, so the operation is not a single atomic step' % a.what))
